@@ -147,6 +147,23 @@ def step (h : HState) (line : String) : HState × String :=
       | some oo => monitorGet h.abs r oo
       | none => { world := h.abs, broken := some "unparsed-observation" }
     finish h h.world o v
+  | ["HEAD", p, inm] =>
+    -- HEAD is GET without the body: the observation is `body <etag> ~` (200 with an ETag),
+    -- `notmodified`, `notfound`, …; the served bytes cannot be seen, so the monitor judges the
+    -- ETag against the acknowledged content and the condition
+    let r : Req := { path := fieldS p, ifNoneMatch := field inm }
+    let o := match get h.world r with
+      | .body e _ => Outcome.body e none
+      | x => x
+    let cur := h.abs.files[Path.normpathS r.path]?
+    let v := match obs with
+      | some (.body (some e) none) =>
+        (match cur with
+         | some t => monitorGet h.abs r (.body (some e) (some t))
+         | none => { world := h.abs, broken := some "C01:head-of-missing-member-answers-200" })
+      | some oo => monitorGet h.abs r oo
+      | none => { world := h.abs, broken := some "unparsed-observation" }
+    finish h h.world o v
   | ["LIST", p] =>
     -- observation: `list =n:e,n:e,…` members (files) of the collection with their ETags
     let cp := Path.normpathS (fieldS p)
